@@ -36,6 +36,11 @@ var C17OtherBool = []string{"execFollow", "omit_template_comment", "struct_tag",
 
 var C17Multi = []string{"worker_limit", "go_initialisms", "models", "resolver"}
 
+// C17KnownDefect mirrors KnownDefect of the spec: constructs that trigger known
+// generator defects; pinned to FALSE in the cover, TRUE in one probe row each.
+var C17KnownDefect = []string{"q_nestedNullMix", "q_dirArgPredeclared", "q_funcSyntaxGoEnum", "q_stubKeywordType",
+	"q_argNamedPanic", "q_autobindIntrospection", "q_valueStructCycle3"}
+
 // C17Held mirrors Held of the spec (fixed along an evolution).
 var C17Held = map[string]bool{"execFollow": true, "resolver": true, "models": true, "stub": true}
 
@@ -46,6 +51,7 @@ func C17Factors() []string {
 	out = append(out, C17YamlBool...)
 	out = append(out, C17OtherBool...)
 	out = append(out, C17Multi...)
+	out = append(out, C17KnownDefect...)
 	return out
 }
 
@@ -167,6 +173,27 @@ func (r C17Row) Label(fs []string) string {
 	return strings.Join(parts, "+")
 }
 
+// Quirks returns the known-defect constructs the row selects (without the q_ prefix).
+func (r C17Row) Quirks() C17Quirks {
+	q := C17Quirks{}
+	for _, f := range C17KnownDefect {
+		if v, ok := r[f].(bool); ok && v {
+			q[strings.TrimPrefix(f, "q_")] = true
+		}
+	}
+	return q
+}
+
+// Probe names the known-defect construct of a probe row ("" for a cover row).
+func (r C17Row) Probe() string {
+	for _, f := range C17KnownDefect {
+		if v, ok := r[f].(bool); ok && v {
+			return strings.TrimPrefix(f, "q_")
+		}
+	}
+	return ""
+}
+
 // ClassKey is the row class recorded in the evidence: the multi-valued part +
 // the layouts + how many schema features / options are on.
 func (r C17Row) ClassKey() string {
@@ -180,6 +207,9 @@ func (r C17Row) ClassKey() string {
 		if !r.IsDefault(f) {
 			nc++
 		}
+	}
+	if p := r.Probe(); p != "" {
+		return "probe:" + p
 	}
 	return fmt.Sprintf("wl=%d/init=%s/models=%s/resolver=%s/execFollow=%v/stub=%v/features=%d/opts=%d",
 		r.I("worker_limit"), r.S("go_initialisms"), r.S("models"), r.S("resolver"), r.B("execFollow"), r.B("stub"), ns, nc)
